@@ -109,6 +109,47 @@ def summary_stats(model, X):
     return out
 
 
+def loglik_magnitude(model, cls, X, y, w, e, fa):
+    """n + sum of the absolute per-observation log-likelihood terms: the scale on which the (possibly nearly cancelling) total is
+    sensitive to a relative perturbation of mu and of the estimated scale"""
+    yy = np.asarray(y, dtype=float)
+    ww = np.array(w).astype('f').ravel().astype(float) if fa['w'] else np.ones_like(yy)
+    n = len(yy)
+    try:
+        if cls == 'PoissonGAM' and fa['e']:
+            yy, ww = model._exposure_to_weights(yy, e, ww if fa['w'] else None)
+        with warnings_off():
+            terms = np.asarray(model.distribution.log_pdf(y=yy, mu=model.predict_mu(X), weights=ww), dtype=float)
+        tot = float(np.abs(terms[np.isfinite(terms)]).sum())
+    except Exception:
+        tot = float(n) * max(1.0, abs(float(model.statistics_['loglikelihood'])))
+    return n + tot
+
+
+def stats_mismatch(a, b, mag):
+    """which summaries of two fits with equal predictions (rtol 1e-5) differ beyond what that equality allows.
+    scale, edof: relative 1e-5.  loglikelihood: a sum of n terms, absolute 1e-5 * (n + sum |terms|)  (d loglik ~ (n/2) d scale / scale for an
+    estimated scale).  AIC = -2 loglik + 2 (edof + ...): twice that plus 1e-5 * (2 edof + 2).  Confidence interval: 1e-5 relative to the
+    interval width + |bound|, per row."""
+    bad = []
+    for k in ('scale', 'edof'):
+        if not np.allclose(a[k], b[k], rtol=1e-5, atol=1e-7):
+            bad.append(k)
+    tol_ll = 1e-5 * mag
+    if not abs(a['loglikelihood'] - b['loglikelihood']) <= tol_ll:
+        bad.append('loglikelihood')
+    if not abs(a['AIC'] - b['AIC']) <= 2 * tol_ll + 1e-5 * (2 * abs(b['edof']) + 2):
+        bad.append('AIC')
+    ca, cb = a['ci90'], b['ci90']
+    if ca.shape != cb.shape:
+        bad.append('ci90')
+    else:
+        width = np.abs(cb[:, 1] - cb[:, 0])[:, None]
+        if not np.all(np.abs(ca - cb) <= 1e-5 * (width + np.abs(cb)) + 1e-7):
+            bad.append('ci90')
+    return bad
+
+
 def converged(model):
     try:
         return bool(model.logs_['diffs'][-1] < model.tol)
@@ -589,7 +630,7 @@ def observe_with_weights(h):
                         # same predictions must come with the same statistics and intervals (scale, edof, log-likelihood, AIC, a 90% CI)
                         if fe:
                             a, b = summary_stats(model, X), summary_stats(fresh, X)
-                            bad = [k for k in a if not np.allclose(a[k], b[k], rtol=1e-5, atol=1e-7)]
+                            bad = stats_mismatch(a, b, loglik_magnitude(fresh, h.cls, X, y, w, e, fa))
                             h.res.case(('fresh-stats', h.hid, m))
                             if bad:
                                 h.res.violations.append(dict(
@@ -806,7 +847,7 @@ def run(res):
                 'predict_proba, accuracy, predict with exposure), gridsearch keep_best on/off, deepcopy, pickle, set_params -- executed on real '
                 'models and on the Coq heap machine; compared per model: identity graph of term objects, which data set each term\'s edge '
                 'knots / categories come from, fitted data set, "predicts like a fresh model of the same class and current settings fitted the '
-                'same way" (rtol 1e-5, only when both fits report convergence; the rest is counted) and then also has its scale, edof, log-likelihood, AIC and a 90% confidence interval; sample is called with n_bootstraps 1, 2, 3 at the training data and at another data set. Around every call the caller\'s '
+                'same way" (rtol 1e-5, only when both fits report convergence; the rest is counted) and then also has its scale, edof (rtol 1e-5), log-likelihood (abs 1e-5 * (n + sum of |per-observation terms|)), AIC (twice that + 1e-5 * (2 edof + 2)) and a 90% confidence interval (1e-5 of width + |bound|); sample is called with n_bootstraps 1, 2, 3 at the training data and at another data set. Around every call the caller\'s '
                 'X / y / weights / exposure are compared bitwise; around every query predict_mu(X_ref), statistics_, coef_ and the term objects\' lam / n_splines / edge knots are compared '
                 'bitwise; predictions / intervals / class-specific predictions on random row subsets and permutations must equal the rows of '
                 'the full result. A history is non-trivial when it contains a fit; all generated histories do.')
